@@ -357,7 +357,8 @@ mod formatter {
         /// If we're in inline mode and the line is too long, backtrack to the
         /// outermost [`Formatter::try_inline`].
         fn backtrack_inline_if_long(&mut self) -> Result {
-            if self.inline_depth > 0 && self.line_buffer.len() > self.config.target_width {
+            // (a label can't contain line breaks, so it has to stay inline however long it gets)
+            if self.inline_depth > 0 && !self.is_label && self.line_buffer.len() > self.config.target_width {
                 return Err(Error(ErrorKind::LineBreakRequired));
             }
             Ok(())
